@@ -196,7 +196,12 @@ static void run_exec(const Exec& e, vr::Ctx& ctx, uint64_t& steps)
                 loop.transport->asyncWrite(sfd, FileBuffer(path)).then(onOk, onErr);
             }
             else
-                loop.transport->asyncWrite(sfd, RawBuffer(dat, dat.size())).then(onOk, onErr);
+            {
+                // a buffer object may hold more than it is asked to send (a partly filled fixed-size chunk): every other
+                // raw write carries slack behind its length
+                bool slack = ((e.kinds[i] + i) & 1) != 0;
+                loop.transport->asyncWrite(sfd, RawBuffer(slack ? dat + "~SLACK~" : dat, dat.size())).then(onOk, onErr);
+            }
         }
         bool progressed = loop.step();
         ++steps;
